@@ -14,7 +14,8 @@ RULE = (
     "Hypothesis-generated autograd programs (1-4 leaves of rank 0-3 incl. 0-d, equal-numel leaves favoured, leaves "
     "not requiring grad, unused leaves; 1-8 SSA nodes over 24 ops: smooth unary, add/sub/mul with broadcasting / "
     "reshape / dense-map coercions, reductions, reshape/permute/expand/select/narrow/cat/stack, unbind/split, detach), "
-    "1-3 output tensors of any shape, `inputs` = drawn sub-list of the leaves in a drawn order or None, pre-existing "
+    "1-3 output tensors of any shape (passed as list / tuple / bare tensor), `inputs` = drawn sub-list of the leaves in a "
+    "drawn order (passed as list / tuple / generator / set / dict keys) or None, pre-existing "
     ".grad absent or drawn, parallel_chunk_size in {None,1..m+2}, float32/float64, aggregator in {position coding, "
     "Constant(distinct weights incl. negative), Mean, Sum, UPGrad/DualProj(pref), Krum, TrimmedMean} wrapped in a "
     "recording aggregator. Oracle: (i) the matrix seen by the aggregator equals, for some ordering of the inputs, the "
@@ -62,6 +63,8 @@ def _case(draw):
         "chunk": chunks[int(rng.integers(0, len(chunks)))],
         "pre": jdcheck.pre_grads(rng, prog),
         "shuffle_seed": int(rng.integers(0, 1000)),
+        # `tensors` is a Sequence[Tensor] | Tensor, `inputs` an Iterable[Tensor]
+        "containers": [["list", "tuple", "tensor"][int(rng.integers(0, 3))], ["list", "tuple", "generator", "set", "dict-keys"][int(rng.integers(0, 5))]],
     }
 
 
@@ -92,12 +95,21 @@ def _features(prog, inputs, shapes, dual):
     return f
 
 
-def _call(prog, inputs, spec, chunk, pre):
+def _call(prog, inputs, spec, chunk, pre, containers=("list", "list")):
     g = P.TorchGraph(prog)
     before = jdcheck.set_pre_grads(g.leaves, pre)
     rec = jdcheck.make_recording(spec, prog["dtype"])
     tensors = [g.get(r) for r in prog["outputs"]]
-    kw = {} if inputs is None else {"inputs": [g.leaves[i] for i in inputs]}
+    if containers[0] == "tuple":
+        tensors = tuple(tensors)
+    elif containers[0] == "tensor" and len(tensors) == 1:
+        tensors = tensors[0]
+    kw = {}
+    if inputs is not None:
+        ins = [g.leaves[i] for i in inputs]
+        kind = containers[1]
+        kw["inputs"] = (tuple(ins) if kind == "tuple" else (x for x in ins) if kind == "generator" else set(ins) if kind == "set"
+                        else dict.fromkeys(ins).keys() if kind == "dict-keys" else ins)
     backward(tensors, rec, parallel_chunk_size=chunk, **kw)
     return g, before, rec
 
@@ -121,7 +133,7 @@ def run_case(case) -> Outcome:
     feats = _features(prog, expected_inputs, shapes, dual)
     out.cls(*feats)
     try:
-        g, before, rec = _call(prog, inputs, spec, case["chunk"], case["pre"])
+        g, before, rec = _call(prog, inputs, spec, case["chunk"], case["pre"], case.get("containers", ("list", "list")))
     except Exception as e:  # noqa: BLE001
         out.check(False, f"backward-raises:{type(e).__name__}", str(e)[:300])
         return out
